@@ -170,7 +170,7 @@ pub fn client_op(w: OpWeights) -> BoxedStrategy<ClientOp> {
         (w.consume, prop_oneof![h().prop_map(|h| ClientOp::Consume { h }), h().prop_map(|h| ClientOp::ConsumeSync { h })].boxed()),
         (w.detach, h().prop_map(|h| ClientOp::Detach { h }).boxed()),
         (w.query, prop_oneof![h().prop_map(|h| ClientOp::QueryStopped { h }), h().prop_map(|h| ClientOp::QueryRunning { h })].boxed()),
-        (w.call_drop, (h(), work(2, w.max_sleep), 0u8..4).prop_map(|(h, work, polls)| ClientOp::CallDrop { h, work, polls }).boxed()),
+        (w.call_drop, (h(), work(2, w.max_sleep), 0u8..4, any::<bool>()).prop_map(|(h, work, polls, call)| if call { ClientOp::CallDrop { h, work, polls } } else { ClientOp::SendDrop { h, work, polls } }).boxed()),
     ];
     alts.retain(|(w, _)| *w > 0);
     proptest::strategy::Union::new_weighted(alts).boxed()
@@ -205,7 +205,7 @@ pub fn normalize(c: &mut Case) {
                     *id = pub_id;
                     pub_id += 1;
                 }
-                ClientOp::Send { work, .. } | ClientOp::Call { work, .. } | ClientOp::CallDrop { work, .. } | ClientOp::SendRepoll { work, .. } => {
+                ClientOp::Send { work, .. } | ClientOp::Call { work, .. } | ClientOp::CallDrop { work, .. } | ClientOp::SendRepoll { work, .. } | ClientOp::SendDrop { work, .. } => {
                     if stream {
                         work.retain(|s| !matches!(s, Step::CtxRestart));
                     }
@@ -378,7 +378,7 @@ pub fn avoid_exact_timeout(c: &mut Case) {
     let Some((t, _)) = c.actors.first().and_then(|a| a.spawn.timeout()) else { return };
     for cl in &mut c.clients {
         for op in cl {
-            if let ClientOp::Send { work, .. } | ClientOp::Call { work, .. } | ClientOp::CallDrop { work, .. } | ClientOp::SendRepoll { work, .. } = op {
+            if let ClientOp::Send { work, .. } | ClientOp::Call { work, .. } | ClientOp::CallDrop { work, .. } | ClientOp::SendRepoll { work, .. } | ClientOp::SendDrop { work, .. } = op {
                 let total: u32 = work.iter().map(|s| if let Step::Sleep(x) = s { *x } else { 0 }).sum();
                 if total == t {
                     work.push(Step::Sleep(1));
@@ -395,7 +395,7 @@ fn sanitize(c: &mut Case) {
     if stream {
         for cl in &mut c.clients {
             for op in cl.iter_mut() {
-                if let ClientOp::Send { work, .. } | ClientOp::Call { work, .. } | ClientOp::CallDrop { work, .. } | ClientOp::SendRepoll { work, .. } = op {
+                if let ClientOp::Send { work, .. } | ClientOp::Call { work, .. } | ClientOp::CallDrop { work, .. } | ClientOp::SendRepoll { work, .. } | ClientOp::SendDrop { work, .. } = op {
                     work.retain(|s| !matches!(s, Step::CtxRestart));
                 }
             }
@@ -602,7 +602,7 @@ pub fn c12(big: bool) -> BoxedStrategy<Case> {
     let max_ops = if big { 16 } else { 10 };
     let mb = prop_oneof![5 => (0u8..=4).prop_map(Mailbox::Bounded), 1 => Just(Mailbox::Unbounded)];
     let spawn = (mb, any::<bool>()).prop_map(|(mailbox, owning)| SpawnSpec::Build { mailbox, strategy: RStrat::Default, timeout: None, fail_on_timeout: false, owning });
-    let base = OpWeights { send: 55, call: 12, ping: 6, convert: 8, yield_: 5, sleep: 4, give: 1, drop: 0, stop: 2, try_stop: 1, max_sleep: 6, ..MSG_WEIGHTS };
+    let base = OpWeights { send: 55, call: 12, ping: 6, convert: 8, yield_: 5, sleep: 4, give: 1, drop: 0, stop: 2, try_stop: 1, call_drop: 8, max_sleep: 6, ..MSG_WEIGHTS };
     let timers = prop_oneof![
         3 => Just(vec![]),
         2 => vec((prop_oneof![Just(TimerKind::Interval), Just(TimerKind::IntervalWith)], 1u32..=8).prop_map(|(kind, ticks)| Step::AddTimer(TimerSpec { kind, ticks, work: vec![] })), 1..=2),
@@ -1041,7 +1041,7 @@ pub fn c16(big: bool) -> BoxedStrategy<Case> {
             let mut next = 1;
             for cl in &mut c.clients {
                 for op in cl.iter_mut() {
-                    if let ClientOp::Send { work, .. } | ClientOp::Call { work, .. } | ClientOp::CallDrop { work, .. } | ClientOp::SendRepoll { work, .. } = op {
+                    if let ClientOp::Send { work, .. } | ClientOp::Call { work, .. } | ClientOp::CallDrop { work, .. } | ClientOp::SendRepoll { work, .. } | ClientOp::SendDrop { work, .. } = op {
                         for s in work.iter_mut() {
                             if let Step::SendToChildren { tag, .. } = s {
                                 *tag = next;
@@ -1169,7 +1169,7 @@ pub fn c09(big: bool) -> BoxedStrategy<Case> {
                             *id = next;
                             next += 1;
                         }
-                        ClientOp::Send { work, .. } | ClientOp::Call { work, .. } | ClientOp::CallDrop { work, .. } | ClientOp::SendRepoll { work, .. } => {
+                        ClientOp::Send { work, .. } | ClientOp::Call { work, .. } | ClientOp::CallDrop { work, .. } | ClientOp::SendRepoll { work, .. } | ClientOp::SendDrop { work, .. } => {
                             for s in work.iter_mut() {
                                 if let Step::Publish { id, .. } = s {
                                     *id = next;
